@@ -847,6 +847,11 @@ func (e *Engine) decodedTerm(src string, t types.Type) Val {
 }
 
 var pureExternal = map[string]bool{
+	"(deps.dev/util/semver.System).Parse":              true,
+	"(deps.dev/util/semver.System).ParseConstraint":    true,
+	"(deps.dev/util/semver.System).Difference":         true,
+	"(*deps.dev/util/semver.Constraint).MatchVersion":  true,
+	"(*deps.dev/util/semver.Version).IsPrerelease":     true,
 	"(deps.dev/util/semver.System).Compare":  true,
 	"(deps.dev/util/resolve.System).Semver":  true,
 	"(*deps.dev/util/semver.System).Compare": true,
@@ -858,6 +863,20 @@ func (e *Engine) pureExternalTerm(name string, a []Val, r types.Type) Val {
 	for _, v := range a {
 		sorts = append(sorts, v.S)
 		ts = append(ts, v.T)
+	}
+	if tup, ok := r.(*types.Tuple); ok && tup.Len() != 1 {
+		out := Val{S: "Tuple", GoT: r}
+		for i := 0; i < tup.Len(); i++ {
+			fi := fmt.Sprintf("%s_%d", f, i)
+			rs := e.sortOf(tup.At(i).Type())
+			e.sc.declareFun(fi, sorts, rs)
+			out.Tuple = append(out.Tuple, Val{T: app(fi, ts...), S: rs, GoT: tup.At(i).Type()})
+		}
+		e.w.Trusted["external function is a deterministic function of its arguments: "+name] = true
+		return out
+	}
+	if tup, ok := r.(*types.Tuple); ok && tup.Len() == 1 {
+		r = tup.At(0).Type()
 	}
 	rs := e.sortOf(r)
 	e.sc.declareFun(f, sorts, rs)
@@ -876,6 +895,7 @@ func pureExternalResult(env *SpecEnv, a []Val, name string) types.Type {
 		if sig.Results().Len() == 1 {
 			return sig.Results().At(0).Type()
 		}
+		return sig.Results()
 	}
 	return tInt
 }
